@@ -17,7 +17,7 @@ RULE = ('queries = multi- and single-integration SELECT/set operations/CTEs (gen
         'steps or planning raised; distinct by (query text, catalog form)')
 ASSUMPTIONS = ['every declared CTE is used by the generated query (an unused CTE would be a legitimate extra sink)',
                'the last step is the one that produces the answer']
-BUDGET = {'quick': (8, 80), 'thorough': (16, 500)}
+BUDGET = {'quick': (8, 240), 'thorough': (16, 1800)}
 
 
 def floors(tier):
